@@ -22,6 +22,7 @@ type Val struct {
 	Elems []*Val   // Slice: arr,off,len ; Struct: fields ; Tuple: components
 	Names []string // struct field names
 	Lit   *ast.FuncLit // function value known to be this literal (calls are inlined)
+	FromMap bool       // obtained by a plain map index m[k] (zero value when the key is absent)
 }
 
 func scalar(t, sort string, g types.Type) *Val { return &Val{T: t, Sort: sort, Go: g} }
@@ -189,6 +190,7 @@ type Eng struct {
 	inlining     map[*ast.FuncLit]bool
 	goOrd        int
 	closAssigned map[types.Object]bool
+	inlDepth     int
 	funcIndex    *funcIndex
 	specPkgPath  string
 	recVar       types.Object
